@@ -43,6 +43,7 @@ RESPOND = [("recv_body",), ("send", OK200), ("send", BODY), ("recv_until_disconn
 GATED = [("recv_body",), ("gate", "g1"), ("send", OK200), ("send", BODY), ("recv_until_disconnect",)]
 NOSEND = [("recv_body",), ("gate", "g1"), ("return",)]
 
+BIGPOST = h1_request(b"POST", b"/a", chunked=[b"c%d" % i for i in range(14)])
 GET = h1_request(b"GET", b"/a")
 GET2 = h1_request(b"GET", b"/b")
 
@@ -56,6 +57,15 @@ HISTORIES = {
     "one_partial": ({"carrier": "h1"}, [("data", 0, GET + GET2[:9])], {"http": RESPOND}, {}),
     "one_then_partial": ({"carrier": "h1"}, [("data", 0, GET), ("data", 0, GET2[:9])], {"http": RESPOND}, {}),
     "gated_partial": ({"carrier": "h1"}, [("data", 0, GET + GET2[:9])], {"http": GATED}, {}),
+    # more request-body messages than the application queue holds (10), for an application that answers
+    # and returns without ever reading them
+    "unread_big": ({"carrier": "h1", "methods": [b"POST"]},
+                   [("data", 0, BIGPOST[:70]), ("data", 0, BIGPOST[70:])],
+                   {"http": [("send", OK200), ("send", BODY)]}, {}),
+    "unread_big_h2": ({"carrier": "h2", "tls": True, "alpn": "h2"},
+                      [("cmd", 0, "preface"), ("cmd", 0, "headers", 1, h2_request_headers(b"POST", b"/a"), False)] +
+                      [("cmd", 0, "datan", 1, b"c%d" % i, i == 13) for i in range(14)],
+                      {"http": [("send", OK200), ("send", BODY)]}, {}),
     "gated": ({"carrier": "h1"}, [("data", 0, GET)], {"http": GATED}, {}),
     "pipe_gated": ({"carrier": "h1"}, [("data", 0, GET + GET2)], {"http:/a": GATED, "http:/b": RESPOND}, {}),
     "pipe_nosend": ({"carrier": "h1"}, [("data", 0, GET + GET2)], {"http:/a": NOSEND, "http:/b": RESPOND}, {}),
